@@ -245,9 +245,53 @@ class FuncInfo:
             return ds[0][1]
         return None
 
+    def reaching_def(self, name_node):
+        """Value of the closest preceding plain assignment `name = expr` that dominates `name_node` in straight-line code: previous siblings in the
+        same block, then in the enclosing blocks (never across a loop boundary, never past a statement that may rebind the name). None otherwise."""
+        if not isinstance(name_node, ast.Name) or name_node not in self.parents():
+            return None
+        name = name_node.id
+        node = self.stmt_of(name_node)
+        while node is not None and node is not self.node:
+            par = self.parent(node)
+            if par is None:
+                return None
+            block = None
+            for f in ('body', 'orelse', 'finalbody'):
+                lst = getattr(par, f, None)
+                if isinstance(lst, list) and any(x is node for x in lst):
+                    block = lst
+            if block is None:
+                if isinstance(par, ast.ExceptHandler):
+                    node = par
+                    continue
+                return None
+            idx = [i for i, x in enumerate(block) if x is node][0]
+            for sib in reversed(block[:idx]):
+                if isinstance(sib, ast.Assign) and len(sib.targets) == 1 and isinstance(sib.targets[0], ast.Name) and sib.targets[0].id == name:
+                    return sib.value
+                for x in ast.walk(sib):
+                    if isinstance(x, ast.Name) and x.id == name and isinstance(x.ctx, (ast.Store, ast.Del)):
+                        return None
+            if isinstance(par, (ast.For, ast.While, ast.AsyncFor, ast.FunctionDef, ast.AsyncFunctionDef, ast.Lambda)):
+                return None
+            if isinstance(par, ast.Try) and block is not par.body:
+                # handlers / else / finally run after (part of) the try body, which may rebind the name
+                if any(isinstance(x, ast.Name) and x.id == name and isinstance(x.ctx, ast.Store) for b_ in par.body for x in ast.walk(b_)):
+                    return None
+            node = par
+        return None
+
     def expand(self, expr, depth=6, stop=()):
-        """Substitute single-definition local temporaries by their defining expressions."""
+        """Substitute local temporaries by their defining expressions: names with a single definition, and names whose closest dominating
+        assignment in straight-line code is unambiguous (`_rv = E; return _rv` in several branches)."""
         fi = self
+        reach = {}
+        for n in ast.walk(expr):
+            if isinstance(n, ast.Name) and isinstance(n.ctx, ast.Load) and n in fi.parents():
+                v = fi.reaching_def(n)
+                if v is not None:
+                    reach[(n.lineno, n.col_offset, n.id)] = v
 
         class T(ast.NodeTransformer):
             def __init__(self, d):
@@ -256,6 +300,10 @@ class FuncInfo:
             def visit_Name(self, n):
                 if isinstance(n.ctx, ast.Load) and n.id not in stop and self.d > 0:
                     v = fi.unique_def(n.id)
+                    if v is None:
+                        v = reach.get((getattr(n, 'lineno', -1), getattr(n, 'col_offset', -1), n.id))
+                        if v is None and n in fi.parents():
+                            v = fi.reaching_def(n)
                     if v is not None and not any(isinstance(x, ast.Name) and x.id == n.id for x in ast.walk(v)):
                         return T(self.d - 1).visit(_copy(v))
                 return n
